@@ -9,7 +9,7 @@ MANIFEST = dict(
 
 RULE = 'histories of 10-30 events over 3 peers / node ids, id pools of 3, SEID classes 0/live/released/beyond/2^63../2^64-1; distinct = distinct event lists, non-trivial = contains an establishment, modification or deletion'
 
-GEN = dict(weights=dict(est=20, dele=14, asr=8, srr=8, usa=8), big_seids=True, p_panic=0.15)
+GEN = dict(weights=dict(est=20, dele=14, asr=8, srr=8, usa=8), big_seids=True, p_panic=0.15, p_alias=0.08)
 N_QUICK, N_THOROUGH = 120, 3000
 
 
